@@ -187,8 +187,57 @@ func init() {
 			}
 			sb.WriteString("def " + m.lean + " : List String := " + LeanStrList(CallSeq(fd)) + "\n")
 		}
+		// statement shape of TSDDecoder.reset: which assignments run on the first-use path and on the re-arm path
+		if fd := FindFunc(tsd, "TSDDecoder", "reset"); fd == nil {
+			return "", fmt.Errorf("TSDDecoder.reset not found")
+		} else {
+			sb.WriteString("\n/-- statement shape of `TSDDecoder.reset`: `if{…}else{…}`, `set:<field>`, `call:<f>`, `return`, in source order -/\n")
+			sb.WriteString("def tsdDecoderPrivateResetShape : List String := " + LeanStrList(stmtShape(fd.Body.List)) + "\n")
+		}
 		return sb.String(), nil
 	}})
+}
+
+// stmtShape flattens a statement list: assignments to selector expressions become "set:<field>", expression
+// statements that are calls "call:<name>", returns "return", an if statement "if{" … "}else{" … "}" around the
+// shapes of its branches; anything else "stmt".
+func stmtShape(list []ast.Stmt) []string {
+	var out []string
+	for _, st := range list {
+		switch x := st.(type) {
+		case *ast.AssignStmt:
+			for _, l := range x.Lhs {
+				if se, ok := l.(*ast.SelectorExpr); ok {
+					out = append(out, "set:"+se.Sel.Name)
+				} else {
+					out = append(out, "set:"+exprName(l))
+				}
+			}
+		case *ast.ExprStmt:
+			if ce, ok := x.X.(*ast.CallExpr); ok {
+				out = append(out, "call:"+exprName(ce.Fun))
+			} else {
+				out = append(out, "stmt")
+			}
+		case *ast.ReturnStmt:
+			out = append(out, "return")
+		case *ast.IfStmt:
+			out = append(out, "if{")
+			out = append(out, stmtShape(x.Body.List)...)
+			switch e := x.Else.(type) {
+			case *ast.BlockStmt:
+				out = append(out, "}else{")
+				out = append(out, stmtShape(e.List)...)
+			case *ast.IfStmt:
+				out = append(out, "}else{")
+				out = append(out, stmtShape([]ast.Stmt{e})...)
+			}
+			out = append(out, "}")
+		default:
+			out = append(out, "stmt")
+		}
+	}
+	return out
 }
 
 // sliceParamSinks: fd's first parameter of slice type; every call (other than the header-only builtins len/cap)
